@@ -3,11 +3,12 @@
 #   tools/runmut.sh <patch.diff> <Cxx> [tier] [worktree-slot]
 # The worktree lives under /tmp/mutwt/<slot> and is removed afterwards.
 set -u
+HERE=$(cd "$(dirname "$0")/.." && pwd)
 PATCH=$(readlink -f "$1"); ID=$2; TIER=${3:-quick}; SLOT=${4:-$$}
 WT=/tmp/mutwt/$SLOT
 mkdir -p /tmp/mutwt
 git -C /repo worktree add -q --detach "$WT" HEAD || exit 2
-trap 'git -C /repo worktree remove --force "$WT" 2>/dev/null; rm -rf /verif/.build/alt-$(echo "$WT" | md5sum | cut -c1-10)' EXIT
+trap 'git -C /repo worktree remove --force "$WT" 2>/dev/null; rm -rf $HERE/.build/alt-$(echo "$WT" | md5sum | cut -c1-10)' EXIT
 if ! git -C "$WT" apply "$PATCH"; then echo "PATCH DOES NOT APPLY"; exit 2; fi
-cd /verif && VERIF_REPO="$WT" ./check "$ID" "$TIER" 2>&1 | grep -E '^(VIOLATION|HELD|INCONCLUSIVE|KNOWN|BUILD|  witness|C[0-9]+ )' | cut -c1-400 | head -12
+cd "$HERE" && VERIF_REPO="$WT" ./check "$ID" "$TIER" 2>&1 | grep -E '^(VIOLATION|HELD|INCONCLUSIVE|KNOWN|BUILD|  witness|C[0-9]+ )' | cut -c1-400 | head -12
 echo "exit=${PIPESTATUS[0]}"
